@@ -146,3 +146,41 @@ func parseRaw(s string) (steps []step) {
 	}
 	return
 }
+
+// cleanup: slip keeps every function, variable, flavor and class of a case in process-global tables for ever (about
+// 10 KB per case: 40 GB for the thorough tier). After a case is judged its names (every token that carries the unique
+// prefix of the case) are given trivial definitions and then removed, so that the compiled code can be collected.
+// Nothing is observed after this point.
+func cleanupNames(prefix string, h []hstep) {
+	defer func() { _ = recover() }()
+	names := map[string]bool{}
+	for _, st := range h {
+		for _, tok := range strings.FieldsFunc(st.src, func(r rune) bool { return strings.ContainsRune(" \n\t()'`,#", r) }) {
+			tok = strings.ToLower(strings.TrimLeft(tok, ":"))
+			if strings.Contains(tok, prefix) {
+				names[tok] = true
+			}
+		}
+	}
+	scope := slip.NewScope()
+	quiet := func(src string) {
+		defer func() { _ = recover() }()
+		slip.ReadString(src, scope).Eval(scope, nil)
+	}
+	for name := range names {
+		if fi := slip.CurrentPackage.GetFunc(name); fi != nil {
+			if fi.Aux != nil {
+				slip.CurrentPackage.Undefine(name) // a generic function: an ordinary one may not be defined over it
+			}
+			quiet("(defun " + name + " () nil)") // the one lambda object of the name lets go of the compiled body
+			slip.CurrentPackage.Undefine(name)
+		}
+		if strings.HasSuffix(name, "-fl") {
+			quiet("(undefflavor '" + name + ")")
+		}
+		func() {
+			defer func() { _ = recover() }()
+			slip.CurrentPackage.Remove(name)
+		}()
+	}
+}
